@@ -487,6 +487,22 @@ def opRecordStop (req : Json) : Except String Json := do
     | pj => do
       pure (FState.complete { materials := ← digestDictOf (← field pj "materials"), signer := ← toStr (← field pj "signer"),
                                intact := ← boolOf (← field pj "intact"), extras := ← extrasOf (fieldD pj "extras" (Json.mkObj [])) })
+  let prelimOf (pj : Json) : Except String (FState Prelim) :=
+    match pj with
+    | .null => pure FState.absent
+    | .str "partial" => pure FState.partialWrite
+    | pj => do
+      pure (FState.complete { materials := ← digestDictOf (← field pj "materials"), signer := ← toStr (← field pj "signer"),
+                               intact := ← boolOf (← field pj "intact"), extras := ← extrasOf (fieldD pj "extras" (Json.mkObj [])) })
+  let dictJson' (x : Dict Str RecVal) : Json := .arr (x.map (fun (k, v) => Json.arr #[ofStr k, recValJson v])).toArray
+  -- gpg key-argument forms: the preliminary record is found by globbing ("prelims": every preliminary file of the step)
+  if let some ps := optField req "prelims" then
+    let prelims ← (← arr ps).mapM prelimOf
+    match recordStopGlob key products prelims given with
+    | .error e => return errJson e
+    | .ok l =>
+      return okJson (Json.mkObj [("materials", dictJson' l.materials), ("products", dictJson' l.products), ("signer", ofStr l.signer),
+        ("extras", extrasJson l.extras), ("prelim_after", .str "absent")])
   match recordStop key products { prelim := prelim, final := .absent } given with
   | .error e => pure (errJson e)
   | .ok d =>
